@@ -146,7 +146,7 @@ func (c *ctx) caseTok(kind byte, cf cfg, value []byte, tag string) {
 	c.ch.Add(req, impl, nt, "kind="+string(kind), "gen="+tag, "cs="+vh.B(cf.cs), "partial="+vh.B(cf.partial))
 }
 
-var alphabet = []string{"a", "B", "z", "_", "*", " ", "/", "-", "é", "É", "İ", "K", "ǅ", "日", "\xff", "\xc3", "0", "ß", "ẞ", "ſ", "\r", "\n", "\\", "\"", "'"}
+var alphabet = []string{"a", "B", "z", "_", "*", " ", "/", "-", "é", "É", "İ", "K", "ǅ", "日", "\xff", "\xc3", "0", "ß", "ẞ", "ſ", "\r", "\n", "\\", "\"", "'", "(", "[", ")", "]", ",", ":", "|", "`"}
 
 var words = []string{"a", "Error", "payment-api", "x1", "Ünïcode", "日本語", "Kelvin", "İstanbul", "ǅ", "straße", "ẞ", "ΑΒΓ", "_id", "a*b", "1e3", "UPPER", "MiXed", "ÀÉÎ",
 	"\xffbad", "tr\xc3", "é", "٣", "Ⅻ", "²"}
@@ -233,6 +233,29 @@ mapping-list:
       - title: text
         type: text
       - type: keyword
+  - name: ms
+    types:
+      - type: keyword
+        size: 16
+      - title: text
+        type: text
+  - name: ms2
+    types:
+      - type: text
+      - title: keyword
+        type: keyword
+        size: 8
+      - title: path
+        type: path
+        size: 30
+  - name: ks
+    types:
+      - type: keyword
+        size: 6
+  - name: "("
+    type: keyword
+  - name: "["
+    type: path
   - name: b1
     type: keyword
   - name: b2
@@ -303,6 +326,12 @@ var styles = []style{
 
 // queryTerm parses field:<written value> and returns the data of the single text term of the single literal.
 func queryTerm(field string, written string, legacy bool) (data string, ok bool, why string) {
+	if field == "(" || field == "[" {
+		if legacy {
+			return "", false, "the legacy language cannot name this field"
+		}
+		field = "`" + field + "`"
+	}
 	var root *parser.ASTNode
 	var err error
 	func() {
@@ -411,7 +440,7 @@ var indexers = map[idxKey]*bulk.VerifIndexer{}
 
 func (c *ctx) caseFind(value []byte, cs, partial bool, maxTokenSize int, extra []string, tag string) {
 	fs := []docField{}
-	for _, n := range []string{"k", "t", "p", "x", "m", "m2", "m3", "o.k"} {
+	for _, n := range []string{"k", "t", "p", "x", "m", "m2", "m3", "o.k", "ms", "ms2", "ks", "(", "["} {
 		fs = append(fs, docField{n, string(jsonString(value)), value})
 	}
 	for i, e := range extra {
@@ -461,13 +490,20 @@ func (c *ctx) caseFind(value []byte, cs, partial bool, maxTokenSize int, extra [
 	c.find.Case(key, nt, "gen="+tag, "cs="+vh.B(cs), "partial="+vh.B(partial), "valid-utf8="+vh.B(utf8.Valid(value)), fmt.Sprintf("nonstrings=%d", len(extra)))
 
 	// existence of every present mapped field (also inside the object and for every type of the multi-type fields)
-	exist := []string{"k", "t", "p", "x", "m", "m.keyword", "m2", "m2.keyword", "m3", "m3.text", "o.k"}
+	exist := []string{"k", "t", "p", "x", "m", "m.keyword", "m2", "m2.keyword", "m3", "m3.text", "o.k", "ms", "ms.text", "ms2", "ms2.keyword", "ms2.path", "ks", "(", "["}
 	for i := range extra {
 		exist = append(exist, fmt.Sprintf("b%d", i+1))
 	}
 	for _, f := range exist {
 		for _, legacy := range []bool{false, true} {
-			data, ok, why := queryTerm("_exists_", f, legacy)
+			written := f
+			if f == "(" || f == "[" { // a name made of a syntax character has to be quoted
+				written = "`" + f + "`"
+				if legacy {
+					written = `"` + f + `"`
+				}
+			}
+			data, ok, why := queryTerm("_exists_", written, legacy)
 			if !ok || !hasToken(toks, "_exists_", []byte(data)) {
 				c.violate("proxy/bulk/indexer.go:index", "exists-not-findable", fmt.Sprintf("_exists_:%s does not find the document (query term %q, %s)", f, data, why), replay)
 			}
@@ -482,15 +518,37 @@ func (c *ctx) caseFind(value []byte, cs, partial bool, maxTokenSize int, extra [
 	var units []unit
 	// the whole value on keyword-typed names (when it is within the size limit); for a multi-type field the name that
 	// carries the keyword type: `field` when keyword is the main type, `field.keyword` otherwise
-	if len(value) <= maxTokenSize {
-		for _, f := range []string{"k", "m.keyword", "m2.keyword", "m3", "o.k"} {
-			units = append(units, unit{f, value, "keyword value", false})
+	eff := func(size int) int {
+		if size == 0 {
+			return maxTokenSize
 		}
-		units = append(units, unit{"p", value, "whole path", false})
-		for i := 1; i < len(value); i++ {
-			if value[i] == '/' {
-				units = append(units, unit{"p", value[:i], "leading path", false})
+		return size
+	}
+	// keyword- and path-typed names with their own size limit (0 = the global max token size)
+	for _, kf := range []struct {
+		name string
+		size int
+		path bool
+	}{{"k", 0, false}, {"m.keyword", 0, false}, {"m2.keyword", 0, false}, {"m3", 0, false}, {"o.k", 0, false}, {"ms", 16, false},
+		{"ms2.keyword", 8, false}, {"ks", 6, false}, {"(", 0, false}, {"p", 0, true}, {"ms2.path", 30, true}, {"[", 0, true}} {
+		lim := eff(kf.size)
+		v := value
+		what := "keyword value"
+		if len(value) > lim {
+			if !partial {
+				continue // over the limit and no partial indexing: the field is not indexed
 			}
+			v, what = value[:lim], "first bytes (partial indexing) of a keyword value"
+		}
+		if kf.path {
+			units = append(units, unit{kf.name, v, "whole path", false})
+			for i := 1; i < len(v); i++ {
+				if v[i] == '/' {
+					units = append(units, unit{kf.name, v[:i], "leading path", false})
+				}
+			}
+		} else {
+			units = append(units, unit{kf.name, v, what, false})
 		}
 	}
 	for i, e := range extra {
@@ -499,7 +557,7 @@ func (c *ctx) caseFind(value []byte, cs, partial bool, maxTokenSize int, extra [
 		}
 	}
 	// every word of the text value (maximal runs of letters, numbers, '_' and '*') on text-typed names
-	for _, f := range []string{"t", "m", "m2", "m3.text"} {
+	for _, f := range []string{"t", "m", "m2", "m3.text", "ms.text", "ms2"} {
 		start := -1
 		flush := func(end int) {
 			if start >= 0 && end-start <= maxTokenSize {
@@ -528,7 +586,7 @@ func (c *ctx) caseFind(value []byte, cs, partial bool, maxTokenSize int, extra [
 			}
 			data, ok, why := queryTerm(u.field, written, st.legacy)
 			c.find.Distribution["style="+st.name]++
-			if !ok && !st.strict {
+			if !ok && (!st.strict || (st.legacy && (u.field == "(" || u.field == "["))) {
 				// a bare word that is a keyword, etc.: this style cannot express the unit
 				c.find.Distribution["unparsed="+st.name]++
 				continue
@@ -540,7 +598,7 @@ func (c *ctx) caseFind(value []byte, cs, partial bool, maxTokenSize int, extra [
 				}
 				site := "tokenizer/keyword_tokenizer.go:Tokenize"
 				switch {
-				case u.field == "p":
+				case u.field == "p" || u.field == "ms2.path" || u.field == "[":
 					site = "tokenizer/path_tokenizer.go:Tokenize"
 				case u.text:
 					site = "tokenizer/text_tokenizer.go:Tokenize"
@@ -585,6 +643,16 @@ func (c *ctx) runFind(r *vh.RNG) {
 		}
 	}
 	rec(nil, c.o.Pick(2, 3))
+	// values whose length lies around every size limit of the mapping (6, 8, 16, 30, max token size), partial indexing on / off
+	for _, n := range []int{5, 6, 7, 8, 9, 15, 16, 17, 29, 30, 31, 41, 71, 72, 73} {
+		for _, base := range []string{"Request Failed: context canceled, retry later please - code 17 (timeout) xyz", "/api/v1/Users/42/orders/2024/items/7/details/extra/long/path/to/somewhere"} {
+			for _, partial := range []bool{false, true} {
+				for _, cs := range []bool{false, true} {
+					c.caseFind([]byte(base[:n]), cs, partial, 72, nil, "limits")
+				}
+			}
+		}
+	}
 	// several non-string values in one document, every ordered pair first
 	for _, a := range nonStrings {
 		for _, b := range nonStrings {
